@@ -143,6 +143,50 @@ def sources_of(desc):
     return srcs, {p.rstrip("/") for p in files if p.endswith("/")}
 
 
+def declared_static(desc):
+    """What the current plans declare static, read from the programs of the script files
+    (independent of what the director made of it): files, trees and patterns."""
+    import fnmatch  # noqa: F401
+    import json
+
+    files, trees, patterns = set(), set(), set()
+
+    def walk(actions, base):
+        for a in actions:
+            if a[0] == "static":
+                for arg in a[1:]:
+                    full = os.path.normpath(os.path.join(base, arg))
+                    if arg.endswith("/"):
+                        trees.add(full)
+                    elif any(ch in arg for ch in "*?["):
+                        patterns.add(full)
+                    else:
+                        files.add(full)
+            elif a[0] == "hold":
+                walk(a[1], base)
+            elif a[0] == "glob" and len(a) > 3:
+                walk(a[3], base)
+
+    for path, content in hist.desc_files(desc).items():
+        if content is None or path.endswith("/") or not content.startswith(SHEBANG):
+            continue
+        lines = content.split("\n")
+        if len(lines) > 1 and lines[1].startswith("# "):
+            try:
+                walk(json.loads(lines[1][2:])["prog"], os.path.dirname(path))
+            except ValueError:
+                pass
+    return files, trees, patterns
+
+
+def under_declared_static(path, decl):
+    import fnmatch
+
+    files, trees, patterns = decl
+    return (path in files or any(path.startswith(t + "/") for t in trees)
+            or any(fnmatch.fnmatchcase(path, p) for p in patterns))
+
+
 def judge(removals, tracker, desc, may_clean, unsafe=False, user_paths=()):
     """Return (kind, path, message) for every removal that C06 forbids."""
     return [(k, _path_of(m), m) for k, m in _judge(removals, tracker, desc, may_clean, unsafe, user_paths)]
@@ -156,6 +200,7 @@ def _judge(removals, tracker, desc, may_clean, unsafe=False, user_paths=()):
     out = []
     srcs, src_dirs = sources_of(desc)
     srcs |= set(user_paths)
+    decl = declared_static(desc)
     for r in removals:
         path = r["path"]
         if not r.get("removed"):
@@ -174,6 +219,11 @@ def _judge(removals, tracker, desc, may_clean, unsafe=False, user_paths=()):
             continue
         if path in srcs or tracker.role.get(path) == "static":
             out.append(("static-file", f"{r['op']} {path}, a user-provided file"))
+            continue
+        if under_declared_static(path, decl):
+            # the plans of this build declare the path static (directly, through a tree or a
+            # pattern): the user has adopted it, whatever role it had before
+            out.append(("declared-static", f"{r['op']} {path}, which the current plan declares static"))
             continue
         if path not in tracker.ever_output:
             out.append(("never-output", f"{r['op']} {path}, which no step ever declared as output"))
